@@ -249,6 +249,8 @@ struct XCfg {
   int mkind = 0;               // label kind of a label-based memory operand
   int rot = 0;
   int lst = -1;                // state of the referenced label at emit time: 0 unbound (bound later), 1 bound before, 2 bound in another section; -1: by the descriptor (fwd)
+  bool f_if_ok = false;        // write the formatter-leg observation only when the assembler accepted the request (combination variants)
+  int cap_er = 0, cap_sae = 0; // what the DB row the request was instantiated from allows ({er} / {sae}); copied into the observation
 };
 
 // one request: leg F, then leg L (when accepted).  Returns true when the assembler accepted it.
@@ -283,21 +285,25 @@ static bool x86_exec(XMode& md, Inst in, const XCfg& cfg, FILE* out, bool lmem_s
     }
   }
   InstOptions io = x86forms::inst_options(in);
+  if (in.er >= 0 && in.sae) io |= InstOptions::kX86_SAE;        // both decorations requested (lib's inst_options passes one of them)
   RegOnly extra; extra.reset();
   if (in.k) extra.init(x86::k(in.k));
   auto begin = [&](vj::W& w, const char* leg, uint32_t fl) {
     w.beginObj().kv("a", "x86").kv("leg", leg);
     x86_write_request(w, in, memlb);
     w.key("lbl").beginArr(); for (const LabelDesc& d : lbl) write_label(w, d); w.endArr();
+    w.key("cap").beginArr().val(cfg.cap_er).val(cfg.cap_sae).endArr();
     w.kv("lst", cfg.lst).kv("fl", (long long)fl);
   };
+  std::string held;
   if (cfg.doF) {
     String sb;
     Formatter::format_instruction(sb, FormatFlags(cfg.flF), md.a, md.env.arch(), BaseInst(id, io, extra), Span<const Operand_>(ops, n));
     vj::W w; begin(w, "F", cfg.flF);
     w.kv("tx", sb.data());
     write_tokens(w, "tk", lex(std::string(sb.data(), sb.size())));
-    w.endObj(); w.emit(out); (lmem_stat ? g_lm_f : g_f)++;
+    w.endObj();
+    if (cfg.f_if_ok && cfg.doL) held = w.s; else { w.emit(out); (lmem_stat ? g_lm_f : g_f)++; }
   }
   bool ok = false;
   if (cfg.doL) {
@@ -313,6 +319,7 @@ static bool x86_exec(XMode& md, Inst in, const XCfg& cfg, FILE* out, bool lmem_s
     a.reset_inst_options(); a.reset_extra_reg(); a.reset_inline_comment();
     if (e == Error::kOk) {
       ok = true;
+      if (!held.empty()) { fputs(held.c_str(), out); fputc('\n', out); (lmem_stat ? g_lm_f : g_f)++; }
       std::vector<std::string> lines = split_lines(md.lg.data(), md.lg.data_size());
       vj::W w; begin(w, "L", cfg.flL);
       w.kv("nl", (long long)lines.size());
@@ -355,7 +362,7 @@ static int cmd_x86(int argc, char** argv) {
     for (const x86forms::FOp& fo : f.ops) if (fo.fld == "rm" && fo.msz >= 0 && fo.vsib.empty()) rm_mem = true;
     for (int pass = 0; pass < 2; pass++) {
       XMode& md = pass == 0 ? m64 : m32;
-      int lm = 0, lj = 0;
+      int lm = 0, lj = 0, cb_er = 0, cb_kz = 0, cb_lock = 0, cb_sl = 0, cb_enc = 0;
       x86forms::instantiate(f, md.bits, rot + (pass ? 3 : 0), [&](Inst& in) {
         uint64_t h = mix(++ctr * 0x9E3779B97F4A7C15ull + seed + uint64_t(f.id) * 1315423911ull);
         // ---- label-based memory operand / label operand in every state, combined with the form's immediate (distinct non-zero bytes)
@@ -379,14 +386,67 @@ static int cmd_x86(int argc, char** argv) {
           v.opt &= ~uint32_t(x86forms::O_LOCK | x86forms::O_XACQ | x86forms::O_XREL | x86forms::O_MODMR | x86forms::O_MODRM);
           uint64_t g = mix(h ^ 0x5bd1e995);
           XCfg c; c.flF = flags_of(uint32_t(g >> 8) & 255); c.flL = flags_of(uint32_t(g >> 16) & 255) | 1; c.layout = g >> 28;
-          c.mkind = int(g % 5); c.rot = int((g >> 3) % 5); c.lst = st; c.doF = st == 0;
+          c.mkind = int(g % 5); c.rot = int((g >> 3) % 5); c.lst = st; c.doF = st == 0; c.cap_er = f.er; c.cap_sae = f.sae;
           bool ok = x86_exec(md, v, c, out, true);
           if (!ok && has_m) lm--;          // not accepted in this shape (e.g. an implicit memory operand): try the next instantiation
           if (!ok && !has_m) lj--;
         }
+        // ---- COMBINATIONS of decorations / options (the lib's grid sets them one family at a time); whatever the assembler accepts is judged
+        {
+          using namespace x86forms;
+          uint64_t g = mix(h ^ 0x2545F4914F6CDD1Dull);
+          int vn = 0;
+          auto variant = [&](Inst v, bool doF) {
+            uint64_t q = mix(g + uint64_t(++vn) * 0x9E3779B97F4A7C15ull);
+            XCfg c; c.flF = flags_of(uint32_t(q >> 8) & 255); c.flL = flags_of(uint32_t(q >> 16) & 255) | 1; c.layout = q >> 28; c.rot = int(q % 5);
+            c.doF = doF; c.f_if_ok = true; c.cap_er = f.er; c.cap_sae = f.sae;
+            x86_exec(md, v, c, out, true);
+          };
+          bool evex_form = f.pk == "E" || f.pk == "V";
+          if (f.er && !has_m && cb_er < lm_rounds) {                                   // {sae} x {er: each rounding mode}
+            cb_er++;
+            for (int m = 0; m < 4; m++) { Inst v = in; v.er = m; v.sae = 1; variant(v, false); }
+          }
+          if (evex_form && f.k && cb_kz < 2 * lm_rounds && (cb_kz % 2 == 0) == has_m) {   // {k} x {z} x broadcast, on a register and on a memory instantiation
+            cb_kz++;
+            int bj = -1, bcst = 0, msz = 0;
+            for (const FOp& fo : f.ops) if (fo.bcst && fo.msz > 0) { bcst = fo.bcst; msz = fo.msz; }
+            for (size_t j = 0; j < in.ops.size(); j++) if (in.ops[j].t == 'm' && bcst) bj = int(j);
+            for (int kk : {0, 5}) for (int zz : {0, 1}) for (int bb = 0; bb < (bj >= 0 ? 2 : 1); bb++) {
+              Inst v = in; v.k = kk; v.z = zz; v.er = -1; v.sae = 0;
+              if (bj >= 0) { Opd& o = v.ops[bj]; if (bb && msz * 8 / bcst >= 2) { o.bc = msz * 8 / bcst; o.sz = bcst / 8; } else { o.bc = 0; o.sz = msz; } }
+              variant(v, true);
+            }
+          }
+          const uint32_t LOCKFAM[5] = {O_LOCK, O_XACQ, O_XREL, O_REP, O_REPNE};
+          if ((f.lock && has_m && cb_lock < lm_rounds) || ((f.rep || f.repne) && cb_lock < lm_rounds)) {   // lock x xacquire/xrelease x rep/repne
+            cb_lock++;
+            for (uint32_t sub = 1; sub < 32; sub++) {
+              uint32_t o = 0; for (int b = 0; b < 5; b++) if (sub >> b & 1) o |= LOCKFAM[b];
+              Inst v = in; v.opt = (in.opt & ~uint32_t(O_LOCK | O_XACQ | O_XREL | O_REP | O_REPNE)) | o; variant(v, true);
+            }
+          }
+          if (has_l && cb_sl < lm_rounds) {                                             // short / long / both
+            cb_sl++;
+            for (uint32_t o : {uint32_t(O_SHORT), uint32_t(O_LONG), uint32_t(O_SHORT | O_LONG)}) { Inst v = in; v.opt = (in.opt & ~uint32_t(O_SHORT | O_LONG)) | o; variant(v, true); }
+          }
+          if (!has_l && cb_enc < 2 * lm_rounds && (cb_enc % 2 == 0) == has_m) {        // rex / vex3 / vex / evex / mod_mr / mod_rm together (subsets of >= 2)
+            cb_enc++;
+            const uint32_t ENC[6] = {O_REX, O_VEX3, O_VEX, O_EVEX, O_MODMR, O_MODRM};
+            int want = x86forms::g_gen.thorough ? 12 : 3, made = 0;
+            for (uint32_t t = 0; t < 64 && made < want; t++) {
+              uint32_t sub = uint32_t((t * 37 + g) % 64);
+              if (__builtin_popcount(sub) < 2) continue;
+              uint32_t o = 0; for (int b = 0; b < 6; b++) if (sub >> b & 1) o |= ENC[b];
+              if (!evex_form && (o & (O_VEX3 | O_VEX | O_EVEX)) && made % 2) continue;
+              Inst v = in; v.opt = (in.opt & ~uint32_t(O_REX | O_VEX3 | O_VEX | O_EVEX | O_MODMR | O_MODRM)) | o; variant(v, true); made++;
+            }
+          }
+        }
         if (h % stride != 0) return;
         h = mix(h);
         XCfg c; c.flF = flags_of(uint32_t(h >> 8) & 255); c.flL = flags_of(uint32_t(h >> 16) & 255);
+        c.cap_er = f.er; c.cap_sae = f.sae;
         if ((h >> 24) % 4 != 0) c.flL |= 1;
         c.layout = h >> 28; c.rot = int(h % 5);
         if ((h >> 40) % 5 == 0) c.ic = "note " + std::to_string(h % 1000) + " r" + std::to_string((h >> 5) % 97);
@@ -395,7 +455,7 @@ static int cmd_x86(int argc, char** argv) {
     }
   }
   fclose(out);
-  fprintf(stderr, "fmtobs x86: %llu instantiations, F=%ld L=%ld, label-reference variants F=%ld L=%ld\n", (unsigned long long)ctr, g_f, g_l, g_lm_f, g_lm_l);
+  fprintf(stderr, "fmtobs x86: %llu instantiations, F=%ld L=%ld, label-reference / combination variants F=%ld L=%ld\n", (unsigned long long)ctr, g_f, g_l, g_lm_f, g_lm_l);
   return 0;
 }
 
@@ -414,6 +474,7 @@ static int cmd_replay(int argc, char** argv) {
     XCfg c; c.doF = leg == "F"; c.doL = leg == "L"; c.flF = c.flL = uint32_t(v["fl"].i());
     if (v.has("ic")) c.ic = v["ic"].s();
     if (v.has("lst")) c.lst = int(v["lst"].i());
+    if (v.has("cap") && v["cap"].size() == 2) { c.cap_er = int(v["cap"][0].i()); c.cap_sae = int(v["cap"][1].i()); }
     if (v.has("lbl")) for (size_t j = 0; j < v["lbl"].size(); j++) c.kinds.push_back(int(v["lbl"][j]["kind"].i()));
     for (size_t j = 0; j < v["ops"].size(); j++) if (v["ops"][j].has("lb")) c.mkind = int(v["ops"][j]["lb"]["kind"].i());
     x86_exec(in.m == 64 ? m64 : m32, in, c, out);
